@@ -343,6 +343,8 @@ pub trait Env {
     /// and otherwise ignored; the memory model is still checked after the
     /// unwinding, which dropped the API's temporaries.
     fn api_panic(&mut self, api: &'static str);
+    /// The spec thread `me` created most recently (set / get).
+    fn last_spec(&mut self, me: u8, set: Option<&Spec>) -> Option<Spec>;
     /// `database.get(...)`: the handle and the zone instance it belongs to
     /// (the model also accounts for the handle the database's cache keeps).
     fn db_get(&mut self, name: u8, case: u8) -> Option<(TimeZone, u32)>;
@@ -392,8 +394,22 @@ fn zoned_consistent(z: &Zoned) -> Result<(), String> {
 /// now (the caller panics so that unwinding drops `slots`).
 pub fn apply<E: Env>(me: u8, op: &Op, slots: &mut Slots, env: &mut E) -> bool {
     let ix = |s: u8| s as usize % SLOTS;
+    // `NewAgain` is `New` with the spec this thread used last.
+    let again;
+    let op = match op {
+        Op::NewAgain { dst } => match env.last_spec(me, None) {
+            Some(spec) if !matches!(spec, Spec::Db(_)) => {
+                again = Op::New { dst: *dst, spec };
+                &again
+            }
+            _ => return false,
+        },
+        other => other,
+    };
     match op {
+        Op::NewAgain { .. } => {}
         Op::New { dst, spec } => {
+            env.last_spec(me, Some(spec));
             env.pre_new(spec);
             let tz = make_tz(spec);
             let zone = env.post_new(spec, &tz);
